@@ -121,10 +121,19 @@ def t_chef(env, out, serial):
     Chef(env["p3"], recipe=env["recipe"], outfile=out, serial=serial, kept_fields="Z").cook()
 
 
+def t_chef_cantera(env, out, serial):
+    from amr_kitchen.chef import Chef
+    from . import c11
+    Chef(env["pthermo"], recipe="SRi", species=["O2", "H2"], outfile=out, mech=c11.MECH, pressure=2.0, serial=serial, kept_fields="temp").cook()
+
+
 def t_mandoline3d(env, out, serial):
     from amr_kitchen.mandoline import Mandoline
     with poisoned(["amr_kitchen.mandoline.mandoline"], 0):
-        return Mandoline(env["p3"], fields=["temp", "Z", "grid_level"], serial=serial, verbose=0).slice(normal=2, pos=env["pos3"], fformat="return")
+        m = Mandoline(env["p3"], fields=["temp", "Z", "grid_level"], serial=serial, verbose=0)
+        # two slices on one object: the serial mode runs the tasks on the parent's own arrays
+        return [m.slice(normal=2, pos=env["pos3"], fformat="return"), m.slice(normal=0, pos=env["pos3x"], fformat="return"),
+                m.slice(normal=2, pos=env["pos3"], fformat="return")]
 
 
 def t_mandoline3d_plt(env, out, serial):
@@ -136,7 +145,8 @@ def t_mandoline3d_plt(env, out, serial):
 def t_mandoline2d(env, out, serial):
     from amr_kitchen.mandoline import Mandoline
     with poisoned(["amr_kitchen.mandoline.mandoline"], 0):
-        return Mandoline(env["p2"], fields=["all"], serial=serial, verbose=0).slice(fformat="return")
+        m = Mandoline(env["p2"], fields=["all"], serial=serial, verbose=0)
+        return [m.slice(fformat="return"), m.slice(fformat="return")]
 
 
 def t_pestle(env, out, serial):
@@ -166,6 +176,7 @@ def t_chk2plt(env, out, serial):
 TOOLS = {"reader_slice": (t_reader_slice, False), "reader_iter": (t_reader_iter, False), "taste": (t_taste, False),
          "taste_bad": (t_taste_bad, False), "colander": (t_colander, False), "colander2d": (t_colander2d, False),
          "combine_byfile": (t_combine_byfile, False), "combine_bybox": (t_combine_bybox, False), "chef": (t_chef, True),
+         "chef_cantera": (t_chef_cantera, True),
          "mandoline3d": (t_mandoline3d, True), "mandoline3d_plt": (t_mandoline3d_plt, True), "mandoline2d": (t_mandoline2d, True),
          "pestle": (t_pestle, False), "whip": (t_whip, False), "chk2plt": (t_chk2plt, False)}
 
@@ -242,6 +253,11 @@ def make_env(workdir, seed):
     victim = os.path.join(env["p3bad"], "Level_1", "Cell_D_00002")
     with open(victim, "r+b") as f:
         f.truncate(os.path.getsize(victim) - 8)
+    from . import c11
+    from ..refmodel import write_plotfile
+    td = c11.thermo_desc(seed, 2)
+    env["pthermo"] = os.path.join(workdir, "plt00030")
+    write_plotfile(td, env["pthermo"], ref=c11.thermo_ref(td))
     env["recipe"] = os.path.join(workdir, "r.py")
     with open(env["recipe"], "w") as f:
         f.write(RECIPE)
